@@ -461,7 +461,104 @@ func kvConcHarness(raw json.RawMessage, cfg vrt.Config) (vrt.Result, Outcome) {
 	return res, outc
 }
 
+// concurrent clients and a crash: see conccrash.go
+type kvCCArg struct {
+	Name    string   `json:"name"`
+	Init    []kvOp   `json:"init,omitempty"` // puts before the clients start (installed)
+	Clients [][]kvOp `json:"clients"`
+	Cap     int      `json:"cap"`
+}
+
+var kvCCStats ccStats
+
+func kvCCHarness(raw json.RawMessage, cfg vrt.Config) (vrt.Result, Outcome) {
+	var a kvCCArg
+	json.Unmarshal(raw, &a)
+	var outc Outcome
+	var ops []ccOp
+	var d *vdisk.Disk
+	var base *vdisk.Image
+	init0 := kvSpec{}
+	for _, ci := range a.Clients {
+		for _, o := range ci {
+			ops = append(ops, ccOp{In: o})
+		}
+	}
+	res := vrt.Run(cfg, func() {
+		d0 := vdisk.New(vdisk.NewImage(kvsSize))
+		d0.Record = false
+		k0 := kvs.MkKVS(d0, kvsSize)
+		for _, o := range a.Init {
+			kvDo(k0, o)
+			init0.apply(o)
+		}
+		vrt.Quiesce()
+		base = d0.Snapshot().Flatten()
+		// the store under test: a new instance on the prepared image, recorded from here on
+		d = vdisk.New(base)
+		k := kvs.MkKVS(d, kvsSize)
+		vrt.Quiesce()
+		vrt.SetBranching(true)
+		var ids []int
+		id := 0
+		for ci, cops := range a.Clients {
+			ci, cops, first := ci, cops, id
+			id += len(cops)
+			ids = append(ids, vrt.Go(fmt.Sprintf("client%d", ci), vrt.ClClient, func() {
+				for j, o := range cops {
+					d.Mark("inv", first+j, 0)
+					got := kvDo(k, o)
+					ops[first+j].Client, ops[first+j].Out = ci, got
+					d.Mark("ack", first+j, 0)
+				}
+			}))
+		}
+		vrt.Join(ids...)
+		vrt.SetBranching(false)
+		vrt.Quiesce()
+	})
+	var ks []string
+	for _, o := range ops {
+		ks = append(ks, fmt.Sprintf("%d:%s->%+v", o.Client, o.In.(kvOp), o.Out))
+	}
+	outc.Key = strings.Join(ks, " | ")
+	if v := VerdictViolation(&res, "C18", "concurrent"); v != nil {
+		outc.Viol = v
+		return res, outc
+	}
+	if res.Pruned {
+		return res, outc
+	}
+	ccPositions(d.Log, ops)
+	show := func(in, out interface{}) string {
+		if out == nil {
+			return in.(kvOp).String()
+		}
+		return fmt.Sprintf("%s->%+v", in.(kvOp), out)
+	}
+	recoverObs := func(img *vdisk.Image, pol int) ([]lin.Op, *vrt.Result) {
+		var obs []lin.Op
+		r := vrt.Run(vrt.Config{}, func() {
+			k := kvs.MkKVS(vdisk.New(img), kvsSize)
+			if pol == 1 {
+				vrt.Quiesce()
+			}
+			for _, key := range kvsKeys {
+				o := kvOp{Get: key}
+				obs = append(obs, lin.Op{Client: 99, In: o, Out: kvDo(k, o)})
+			}
+			vrt.Quiesce()
+		})
+		return obs, &r
+	}
+	if sig, detail := concCrashCheck(a.Name, base, d.Log, ops, init0, kvOut{}, recoverObs, show, func(in interface{}) bool { return in.(kvOp).Put }, a.Cap, &kvCCStats); sig != "" {
+		outc.Viol = &report.Violation{Property: "C18", Sig: sig, Detail: detail}
+	}
+	return res, outc
+}
+
 func init() {
+	RegisterHarness("c18.conccrash", kvCCHarness)
 	par.Register("c18.seq", kvSeqJob)
 	RegisterHarness("c18.conc", kvConcHarness)
 	Checks["C18"] = C18
@@ -473,7 +570,7 @@ func C18(r *report.Report, tier string) {
 	if tier == "thorough" {
 		depth, crashDepth, bound = 3, 3, 3
 	}
-	r.Rule = fmt.Sprintf("sequential: every sequence of <=%d operations over a %d-symbol alphabet of multi-puts (1..3 keys, repeated key, 10/300/511/512 keys) and gets at the key-range boundaries, each reply and the final state against a map; crash: every crash image (cut x loss of un-barriered writes, nested crash in recovery) of every put-only history of depth <=%d, recovered with the real MkKVS under two recovery schedules, must equal the map after a prefix that contains every returned put; concurrent: all schedules with <=%d preemptions of 3-client harnesses, brute-force linearizability. distinct_nontrivial counts distinct crash images with a lost pending write or a non-empty on-disk log.", depth, len(al), crashDepth, bound)
+	r.Rule = fmt.Sprintf("sequential: every sequence of <=%d operations over a %d-symbol alphabet of multi-puts (1..3 keys, repeated key, 10/300/511/512 keys) and gets at the key-range boundaries, each reply and the final state against a map; crash: every crash image (cut x loss of un-barriered writes, nested crash in recovery) of every put-only history of depth <=%d, recovered with the real MkKVS under two recovery schedules, must equal the map after a prefix that contains every returned put; concurrent: all schedules with <=%d preemptions of 3-client harnesses, brute-force linearizability; concurrent + crash: for every schedule (one deviation less, no state caching) of four 2-client harnesses (put against an oversized put that fails, against gets, against an overlapping put, puts that re-write current values) every crash image of the recorded trace, at every cut at which it is possible: the puts acknowledged before the cut, any subset of the pending ones and the recovered store must be linearizable (gets are left out: a get may see a put that is not durable yet). distinct_nontrivial counts distinct crash images with a lost pending write or a non-empty on-disk log.", depth, len(al), crashDepth, bound)
 	// sequences
 	var jobs []interface{}
 	var rec func(prefix []kvOp, d int)
@@ -560,6 +657,21 @@ func C18(r *report.Report, tier string) {
 		}
 		sums = append(sums, s)
 		r.Sample(map[string]interface{}{"concurrent_harness": h, "executions": s.Execs, "distinct_outcomes": len(s.Outcomes)})
+	}
+	// concurrent clients and a crash (durable linearizability); also: puts that re-write current values
+	X := func(keys []uint64, tags ...byte) kvOp { return kvOp{Put: true, Keys: keys, Tags: tags} }
+	ccs := []kvCCArg{
+		{Name: "put-vs-oversized-put", Clients: [][]kvOp{{X([]uint64{513}, 1)}, {{Put: true, Big: 560, Tags: []byte{7}}}}}, // (more than 511 pairs: refused)
+		{Name: "put-vs-get", Clients: [][]kvOp{{A(1)}, {{Get: 513}, {Get: 514}}}},
+		{Name: "put-vs-put-overlapping", Clients: [][]kvOp{{A(1)}, {B(2)}}},
+		{Name: "rewrite-current-values", Init: []kvOp{X([]uint64{513}, 1), X([]uint64{514}, 2)}, Clients: [][]kvOp{{X([]uint64{513, 514}, 1, 1)}, {X([]uint64{513, 514}, 2, 2)}}},
+	}
+	for _, h := range ccs {
+		h.Cap = 64
+		s := ExploreAllOpt(r, "c18.conccrash", h, bound-1, vrt.PDiskW|vrt.PUnlock, false, true)
+		s.Harness = "conccrash:" + h.Name
+		sums = append(sums, s)
+		r.Sample(map[string]interface{}{"concurrent_crash_harness": h, "executions": s.Execs, "distinct_outcomes": len(s.Outcomes)})
 	}
 	r.Extra["concurrent"] = sums
 	r.Add("states", int64(len(states)))
